@@ -20,6 +20,8 @@ pub struct ArchM {
     /// last archetype version observed through the hook, and the removal count at that time
     pub ver_obs: u64,
     pub rem_at_obs: u64,
+    /// last generation observed per position through the hook (C08 early warning)
+    pub slot_gens: Vec<u32>,
     pub preset: bool,
     pub created_ev: Vec<Bits>,
     pub destroyed_ev: Vec<Bits>,
@@ -46,7 +48,7 @@ impl Model {
         Model {
             archs: caps
                 .iter()
-                .map(|c| ArchM { len: 0, cap: *c, removals: 0, creations: 0, ver: 1, ver_obs: 0, rem_at_obs: 0, preset: false, created_ev: Vec::new(), destroyed_ev: Vec::new() })
+                .map(|c| ArchM { len: 0, cap: *c, removals: 0, creations: 0, ver: 1, ver_obs: 0, rem_at_obs: 0, slot_gens: Vec::new(), preset: false, created_ev: Vec::new(), destroyed_ev: Vec::new() })
                 .collect(),
             ents: BTreeMap::new(),
             issued: BTreeSet::new(),
